@@ -1,4 +1,5 @@
-(* Proofs for C10: decision logic of find_operating_point and what a converged secant search guarantees. *)
+(* Proofs for C10: decision logic of find_operating_point, what a converged secant search guarantees, and what the
+   bracketed fallback adds. *)
 From Coq Require Import Reals List Bool Lra.
 From DHV Require Import NumOps RInst OpPoint.
 Import ListNotations.
@@ -6,34 +7,73 @@ Local Open Scope R_scope.
 
 Section S.
 Variable gap : R -> R.
-Notation fop := (find_operating_point RN gap).
+Variable raises : R -> bool.
+Notation fop := (find_operating_point RN gap raises).
 
 Definition tolR : R := 148 / 10000000000.
 
 (* pump head below system head at the minimum-friction flow: OperatingPointError, nothing is searched *)
-Lemma infeasible qimin qlast hsys hpump : hpump < hsys -> fop qimin qlast hsys hpump = (OperatingPointError, []).
+Lemma infeasible qimin qlast hsys hpump bc br hs hp : hpump < hsys -> fop qimin qlast hsys hpump bc br hs hp = (OperatingPointError, []).
 Proof. intro H. unfold find_operating_point. toR. rewrite (proj2 (Rltb_true hpump hsys) H). reflexivity. Qed.
 
-(* the only outcomes: a root reported as converged, OperatingPointError, or ValueError exactly when the two starting
-   flows coincide (qimin equal to the largest tabulated flow) *)
-Lemma outcomes qimin qlast hsys hpump :
-  (exists r vis, fop qimin qlast hsys hpump = (Ok r, vis) /\ hsys <= hpump /\
-                 exists vis0, secant RN gap qimin ((qimin + qlast) / 2) = (r, true, vis0)) \/
-  (exists vis, fop qimin qlast hsys hpump = (OperatingPointError, vis)) \/
-  (fop qimin qlast hsys hpump = (ValueError, []) /\ (qimin + qlast) / 2 = qimin).
+Lemma heads_equal_spec hs hp : heads_equal RN hs hp = true <-> Rabs (hs - hp) <= 1 / 1000000 * Rmax (Rabs hs) (Rabs hp).
+Proof. unfold heads_equal. toR. apply Rleb_true. Qed.
+
+(* the outcomes.  A flow is returned only (a) as a root the secant search reports as converged, at or right of the
+   minimum-friction flow, or (b) as the answer of the bracketing solver -- asked only when (a) failed and the gap is
+   positive at the largest flow -- and then only when it converged and the heads at it agree to 1e-6 relative.
+   ValueError: exactly when the two starting flows coincide.  IndexError escapes only from the evaluation at the
+   largest tabulated flow; one raised inside the secant search is swallowed. *)
+Lemma outcomes qimin qlast hsys hpump bc br hs hp :
+  let x1 := (qimin + qlast) / 2 in
+  (exists r vis, fop qimin qlast hsys hpump bc br hs hp = (Ok r, vis) /\ hsys <= hpump /\
+     ((qimin <= r /\ secant RN gap raises qimin x1 = (Some (r, true), vis)) \/
+      (r = br /\ accepted RN qimin (fst (secant RN gap raises qimin x1)) = None /\ raises qlast = false /\ 0 < gap qlast /\ bc = true /\
+       Rabs (hs - hp) <= 1 / 1000000 * Rmax (Rabs hs) (Rabs hp)))) \/
+  (exists vis, fop qimin qlast hsys hpump bc br hs hp = (OperatingPointError, vis)) \/
+  (fop qimin qlast hsys hpump bc br hs hp = (ValueError, []) /\ x1 = qimin) \/
+  (exists vis, fop qimin qlast hsys hpump bc br hs hp = (IndexErr, vis) /\ raises qlast = true).
 Proof.
-  unfold find_operating_point. toR. destruct (Rltb hpump hsys) eqn:B; [right; left; eauto|].
+  cbv zeta. unfold find_operating_point. toR. destruct (Rltb hpump hsys) eqn:B; [right; left; eauto|].
   apply Rltb_false in B. cbv zeta.
-  destruct (Reqb ((qimin + qlast) / 2) qimin) eqn:E; [right; right; split; [reflexivity|apply Reqb_true; exact E]|].
-  destruct (secant RN gap qimin ((qimin + qlast) / 2)) as [[r conv] vis] eqn:S.
-  destruct conv; [left|right; left; eauto].
-  exists r, vis. split; [reflexivity|]. split; [exact B|eauto].
+  destruct (Reqb ((qimin + qlast) / 2) qimin) eqn:E; [right; right; left; split; [reflexivity|apply Reqb_true; exact E]|].
+  destruct (secant RN gap raises qimin ((qimin + qlast) / 2)) as [r vis] eqn:S. cbn [fst].
+  destruct (accepted RN qimin r) as [root|] eqn:A.
+  - left. exists root, vis. split; [reflexivity|]. split; [exact B|]. left.
+    unfold accepted in A. destruct r as [[r0 c]|]; [|discriminate A]. destruct c; [|discriminate A]. toR_in A.
+    destruct (Rleb qimin r0) eqn:L; [|discriminate A]. injection A as <-. apply Rleb_true in L. split; [exact L|reflexivity].
+  - destruct (raises qlast) eqn:RL; [right; right; right; eauto|].
+    destruct (Rltb 0 (gap qlast)) eqn:G; [|right; left; eauto].
+    destruct (bc && heads_equal RN hs hp)%bool eqn:H; [|right; left; eauto].
+    apply andb_true_iff in H. destruct H as [Hb Hh]. apply heads_equal_spec in Hh. apply Rltb_true in G.
+    left. exists br, vis. split; [reflexivity|]. split; [exact B|]. right. repeat split; assumption.
+Qed.
+
+(* the landing clause: pump head at least system head at the minimum-friction flow, system head above pump head at the
+   largest flow, and a bracketing solver that converges to a flow at which the heads agree: a flow is returned whatever
+   the unbracketed search did -- its own converged root right of qimin, or else the bracketed one *)
+Lemma lands qimin qlast hsys hpump br hs hp : hsys <= hpump -> (qimin + qlast) / 2 <> qimin ->
+  raises qlast = false -> 0 < gap qlast -> Rabs (hs - hp) <= 1 / 1000000 * Rmax (Rabs hs) (Rabs hp) ->
+  exists r vis, fop qimin qlast hsys hpump true br hs hp = (Ok r, vis) /\
+    (r = br \/ (qimin <= r /\ secant RN gap raises qimin ((qimin + qlast) / 2) = (Some (r, true), vis))).
+Proof.
+  intros H1 H2 H3 H4 H5. unfold find_operating_point. toR.
+  rewrite (proj2 (Rltb_false hpump hsys) H1). cbv zeta.
+  assert (E : Reqb ((qimin + qlast) / 2) qimin = false).
+  { unfold Reqb. destruct (Req_EM_T ((qimin + qlast) / 2) qimin) as [A|_]; [contradiction|reflexivity]. }
+  rewrite E. destruct (secant RN gap raises qimin ((qimin + qlast) / 2)) as [r vis] eqn:S.
+  destruct (accepted RN qimin r) as [root|] eqn:A.
+  - exists root, vis. split; [reflexivity|]. right.
+    unfold accepted in A. destruct r as [[r0 c]|]; [|discriminate A]. destruct c; [|discriminate A]. toR_in A.
+    destruct (Rleb qimin r0) eqn:L; [|discriminate A]. injection A as <-. apply Rleb_true in L. split; [exact L|reflexivity].
+  - rewrite H3, (proj2 (Rltb_true 0 (gap qlast)) H4). rewrite (proj2 (heads_equal_spec hs hp) H5). cbn [andb].
+    exists br, vis. split; [reflexivity|left; reflexivity].
 Qed.
 
 (* a converged search: the reported root is one secant update from the last evaluated flow b, no further than the
    step tolerance from it, with distinct gap values at the two points it was computed from *)
 Lemma loop_converged : forall fuel p0 q0 p1 q1 vis r vis',
-  secant_loop RN gap fuel p0 q0 p1 q1 vis = (r, true, vis') -> q0 = gap p0 -> q1 = gap p1 ->
+  secant_loop RN gap raises fuel p0 q0 p1 q1 vis = (Some (r, true), vis') -> q0 = gap p0 -> q1 = gap p1 ->
   exists a b, r = secant_step RN a (gap a) b (gap b) /\ Rabs (r - b) <= tolR /\ gap b <> gap a.
 Proof.
   induction fuel as [|fuel IH]; intros p0 q0 p1 q1 vis r vis' H E0 E1; [discriminate H|].
@@ -42,13 +82,15 @@ Proof.
   - injection H as <- _. exists p0, p1. rewrite <- E0, <- E1. split; [reflexivity|]. split.
     + apply Rleb_true in C. unfold tol in C. toR_in C. exact C.
     + intro A. unfold Reqb in Q. destruct (Req_EM_T q1 q0) as [_|N]; [discriminate Q|]. apply N. exact A.
-  - eapply IH; [exact H|exact E1|reflexivity].
+  - destruct (raises (secant_step RN p0 q0 p1 q1)); [discriminate H|].
+    eapply IH; [exact H|exact E1|reflexivity].
 Qed.
 
-Lemma secant_converged x0 x1 r vis : secant RN gap x0 x1 = (r, true, vis) ->
+Lemma secant_converged x0 x1 r vis : secant RN gap raises x0 x1 = (Some (r, true), vis) ->
   exists a b, r = secant_step RN a (gap a) b (gap b) /\ Rabs (r - b) <= tolR /\ gap b <> gap a.
 Proof.
-  unfold secant. cbv zeta. destruct (nltb RN _ _); intro H; eapply loop_converged; try exact H; reflexivity.
+  unfold secant. destruct (raises x0); [discriminate|]. destruct (raises x1); [discriminate|]. cbv zeta.
+  destruct (nltb RN _ _); intro H; eapply loop_converged; try exact H; reflexivity.
 Qed.
 
 (* the secant update written the textbook way *)
